@@ -221,7 +221,7 @@ theorem p8_runCb (s : Stack) (cb : Cb) (hp : P8c (pi8 s)) : P8c (pi8 (s.runCb cb
     · exact hp
     · split
       · exact hp
-      · have h2 : ∀ (X : Stack) (q : Option Nat), P8c (pi8 X) → P8c (pi8 (X.cancelTimer isSleep q)) := fun X q h => by simpa using h
+      · have h2 : ∀ (X : Stack) (q : Option Nat), P8c (pi8 X) → P8c (pi8 (X.cancelTimer (isSleepFor tid) q)) := fun X q h => by simpa using h
         split
         · exact p8_stepOffer _ _ _ _ (h2 _ _ hp)
         · exact p8_stepFind _ _ _ (h2 _ _ hp)
